@@ -260,16 +260,34 @@ func compareBody(path string, wb *hclwrite.Body, nb *hclsyntax.Body, v *srcView,
 			return &treeFail{"c10.variables-count-differs", fmt.Sprintf("%sattribute %q: Expression.Variables() reports %d traversals, hclsyntax reports %d", path, ra.Name, len(wvars), len(rvars))}
 		}
 		fmt.Fprintf(sig, "%s=", ra.Name)
+		// The order in which Variables() lists the traversals is not part of
+		// the property ("exposes every variable reference"): compare as
+		// multisets, pairing by spelling.
+		type ser struct {
+			toks []cfgcorpus.Tok
+			key  string
+			tr   hcl.Traversal
+		}
+		gotS := make([]ser, len(wvars))
+		wantS := make([]ser, len(rvars))
+		for i := range wvars {
+			t := significant(wvars[i].BuildTokens(nil))
+			gotS[i] = ser{toks: t, key: cfgcorpus.TokString(t)}
+		}
 		for i, rt := range rvars {
-			got := significant(wvars[i].BuildTokens(nil))
-			want := v.within(rt.SourceRange())
-			if !cfgcorpus.SameToks(got, want) {
-				return &treeFail{"c10.variable-traversal-differs", fmt.Sprintf("%sattribute %q: variable %d is exposed as %s, the source has %s", path, ra.Name, i, cfgcorpus.TokString(got), cfgcorpus.TokString(want))}
+			t := v.within(rt.SourceRange())
+			wantS[i] = ser{toks: t, key: cfgcorpus.TokString(t), tr: rt}
+		}
+		sort.SliceStable(gotS, func(i, j int) bool { return gotS[i].key < gotS[j].key })
+		sort.SliceStable(wantS, func(i, j int) bool { return wantS[i].key < wantS[j].key })
+		for i := range wantS {
+			if gotS[i].key != wantS[i].key {
+				return &treeFail{"c10.variable-traversal-differs", fmt.Sprintf("%sattribute %q: Variables() exposes %s, which the source does not have; the source has %s", path, ra.Name, gotS[i].key, wantS[i].key)}
 			}
-			if !matchTraversal(got, rt) {
-				return &treeFail{"c10.variable-traversal-misshapen", fmt.Sprintf("%sattribute %q: variable %d is exposed as %s, which does not spell the traversal hclsyntax reports (root %q, %d steps)", path, ra.Name, i, cfgcorpus.TokString(got), rt.RootName(), len(rt))}
+			if !matchTraversal(gotS[i].toks, wantS[i].tr) {
+				return &treeFail{"c10.variable-traversal-misshapen", fmt.Sprintf("%sattribute %q: a variable is exposed as %s, which does not spell the traversal hclsyntax reports (root %q, %d steps)", path, ra.Name, gotS[i].key, wantS[i].tr.RootName(), len(wantS[i].tr))}
 			}
-			for _, t := range got {
+			for _, t := range gotS[i].toks {
 				sig.WriteString(t.Bytes)
 			}
 			sig.WriteByte(',')
@@ -412,6 +430,9 @@ func shrink(c engine.Case) []engine.Case {
 				continue
 			}
 			add(d.Src[:ranges[i][0]] + d.Src[ranges[i][1]:])
+			if i+1 < len(ranges) && ranges[i+1][0] < ranges[i+1][1] {
+				add(d.Src[:ranges[i][0]] + d.Src[ranges[i+1][1]:]) // two adjacent tokens
+			}
 		}
 		prev := 0
 		for i := range ranges {
